@@ -1237,6 +1237,29 @@ static void ma_prologue(FILE *fplan, const char *outdir) {
   free(m.p);
 }
 
+/* degenerate documents through every entry point (buffer, file, diff): zero-length, one byte, a lone NUL, only white space, only the
+ * XML declaration: each must be refused (or loaded) in bounded time */
+static void edge_prologue(FILE *fplan, const char *outdir) {
+  static const struct { const char *p; size_t n; } docs0[] = { {"", 0}, {"<", 1}, {"\0", 1}, {"\n", 1}, {" \n\t ", 4}, {"<?xml version=\"1.0\" encoding=\"UTF-8\"?>\n", 39},
+    {"<topology>", 10}, {"<topology version=\"3.0\">", 24}, {"<topologydiff>", 14}, {"<topology version=\"3.0\"></topology>\n", 36} };
+  static const char modes[] = "BFD";
+  struct buf m = {0}; unsigned idn = 0; char path[1200];
+  for (unsigned d = 0; d < sizeof docs0 / sizeof *docs0; d++) for (unsigned k = 0; k < 3; k++) {
+    b_set(&m, docs0[d].p, docs0[d].n);
+    char id[32]; snprintf(id, sizeof id, "e%u", idn++);
+    char mode = modes[k]; unsigned long xflags = mode == 'D' ? 0 : gen_xflags();
+    snprintf(path, sizeof path, "%s/%s.xml", outdir, id);
+    if (write_file(path, m.p, m.n) < 0) _exit(2);
+    fprintf(fplan, "%s %c %lu %d %zu %016llx ", id, mode, xflags, 0, m.n, (unsigned long long) fnv(m.p, m.n)); fflush(fplan);
+    int res = run_case_lc(id, m.p, m.n, mode, xflags, 0, path, 0, 0);
+    if (res == 1) fprintf(fplan, "loaded\n"); else if (res == 2) fprintf(fplan, "failed\n");
+    else { if (res == '7') fprintf(fplan, "skipped-F71\n"); else fprintf(fplan, "skipped-F05%c\n", res); }
+    remove(path);
+    fflush(fplan);
+  }
+  free(m.p);
+}
+
 int main(int argc, char **argv) {
   const char *lx = getenv("HWLOC_LIBXML");
   nolibxml = lx && !atoi(lx);
@@ -1279,6 +1302,7 @@ int main(int argc, char **argv) {
   fprintf(fplan, "# seeds %u (diff %u, with distances %u) backend %s\n", ndocs, ndiffdocs, ndistdocs, nolibxml ? "nolibxml" : "libxml"); fflush(fplan);
   if (!env_on("VERIF_NO_DISTDROP")) dd_prologue(fplan, outdir);
   if (!env_on("VERIF_NO_MACAT")) ma_prologue(fplan, outdir);
+  edge_prologue(fplan, outdir);
   struct buf m = {0};
   for (unsigned long i = 0; i < n; i++) {
     char id[32]; snprintf(id, sizeof id, "c%lu", i);
